@@ -241,10 +241,23 @@ func c02Err(f string) error {
 		}
 		return errors.New(int32(n), "%s", proto.UnB(msg))
 	case 'p':
+		if c02Sum(f)%3 == 1 {
+			// a plain error that WRAPS a coded one (fmt.Errorf("…: %w", apiErr)): still a plain error — it is
+			// not an errors.Error itself, whatever errors.As would dig out of it
+			return &c02Wrapping{proto.UnB(f[1:]), errors.New(402, "wrapped payment required")}
+		}
 		return stderrors.New(proto.UnB(f[1:]))
 	}
 	panic("C02: bad error field " + f)
 }
+
+type c02Wrapping struct {
+	msg   string
+	inner error
+}
+
+func (w *c02Wrapping) Error() string { return w.msg }
+func (w *c02Wrapping) Unwrap() error { return w.inner }
 
 type c02Authorizer struct {
 	kind  byte
@@ -338,8 +351,8 @@ func (c c02Consumer) Consume(r io.Reader, v interface{}) error {
 }
 
 func c02ErrField(err error) string {
-	var e errors.Error
-	if stderrors.As(err, &e) {
+	// what the error IS (not what it wraps): a coded error carries its own status, everything else is plain
+	if e, ok := err.(errors.Error); ok {
 		return "c" + strconv.Itoa(int(e.Code())) + ":" + proto.B(e.Error())
 	}
 	return "p:" + proto.B(err.Error())
@@ -360,7 +373,7 @@ func c02Build(in []string) *c02API {
 	// ---- choices per structure (functions of the structural inputs, which key the cache)
 	ssum := c02Sum(in[1], in[2], in[3], in[4])
 	a := &c02API{carrier: map[string]int{}}
-	a.method = []string{"post", "put", "patch"}[ssum%3]
+	a.method = []string{"post", "put", "patch", "options", "delete"}[ssum%5]
 	opPath := []string{"/op", "/op/{id}", "/things/{id}/op"}[(ssum/3)%3]
 	base := []string{"/", "/v1", "/api/"}[(ssum/9)%3]
 	a.path = strings.TrimRight(base, "/") + strings.Replace(opPath, "{id}", "7", 1)
@@ -651,6 +664,11 @@ func c02Exec(in []string) []string {
 			r.Header.Set("Accept", "application/json")
 		case 2:
 			r.Header.Set("Accept", "*/*")
+		}
+		if (rsum/7)%4 == 1 {
+			// what a browser's preflight carries: no licence to skip the operation's security
+			r.Header.Set("Access-Control-Request-Method", "GET")
+			r.Header.Set("Origin", "https://other.example")
 		}
 		return r
 	}
